@@ -24,14 +24,22 @@ def run(ctx: Ctx, aspect="verdict"):
     judge_rule_stream(ctx, s, evaluate(ctx, corpus_cases()), aspect)
     s.finish()
 
-    # exhaustive small scopes
-    s = Stream(ctx, "exhaustive: all relations on trees<=%d nodes; <=%d imports on trees<=%d nodes" % ((3, 2, 4) if quick else (4, 3, 5)), exhaustive=True)
+    # exhaustive small scopes (generated lazily and judged in chunks: the thorough scope has ~5 million cases)
+    import itertools
+
+    from ..rules_common import exhaustive_cases_iter
+
+    scope = (3, 2, 4) if quick else (4, 2, 5)
+    s = Stream(ctx, "exhaustive: all relations on trees<=%d nodes; <=%d imports on trees<=%d nodes" % scope, exhaustive=True)
     if quick:
-        cases = exhaustive_cases(3, max_imports=None, batch=(2, 2)) + exhaustive_cases(4, max_imports=2, batch=(1, 1))
+        it = itertools.chain(exhaustive_cases_iter(3, max_imports=None, batch=(2, 2)), exhaustive_cases_iter(4, max_imports=2, batch=(1, 1)))
     else:
-        cases = exhaustive_cases(4, max_imports=None, batch=(2, 2)) + exhaustive_cases(5, max_imports=3, batch=(1, 1))
-    for i in range(0, len(cases), 60000):
-        judge_rule_stream(ctx, s, evaluate(ctx, cases[i : i + 60000]), aspect)
+        it = itertools.chain(exhaustive_cases_iter(4, max_imports=None, batch=(2, 2)), exhaustive_cases_iter(5, max_imports=2, batch=(1, 1)))
+    while True:
+        chunk = list(itertools.islice(it, 60000))
+        if not chunk:
+            break
+        judge_rule_stream(ctx, s, evaluate(ctx, chunk), aspect)
         if ctx.violations:
             break
     s.finish()
